@@ -24,11 +24,12 @@ from .simfs import SimFS, SimUnsupported
 CACHE_DIR = "/SIMFS/cache"
 CACHE_NAME = "simcache"
 
-RES_FAULTS = ("NOTFOUND", "ERR_BEFORE", "ERR_MID", "ERR_AFTER", "RET_FALSE_BEFORE", "RET_FALSE_MID", "INTERRUPT_MID")
+RES_FAULTS = ("NOTFOUND", "ERR_BEFORE", "ERR_MID", "ERR_AFTER", "RET_FALSE_BEFORE", "RET_FALSE_MID", "INTERRUPT_MID",
+              "ERR_STOPITER")
 NET_FAULTS = ("HTTP_404", "HTTP_5XX", "CONN_ERR", "TIMEOUT")
 FS_FAULTS = ("EIO", "ENOSPC", "SHORT_WRITE", "EMFILE", "SRC_MISSING", "RENAME_EIO")
 PP_FAULTS = ("PP_ERR_BEFORE", "PP_ERR_MID", "PP_ERR_AFTER", "PP_INTERRUPT_MID")
-VAL_FAULTS = ("VALIDATE_FALSE", "VALIDATE_IOERROR")
+VAL_FAULTS = ("VALIDATE_FALSE", "VALIDATE_IOERROR", "VALIDATE_RAISE")
 ALL_FAULTS = RES_FAULTS + NET_FAULTS + FS_FAULTS + PP_FAULTS + VAL_FAULTS
 
 
@@ -446,6 +447,9 @@ class World:
             raise NotFound("sim resource has no object %s" % uri)
         if kind == "ERR_BEFORE":
             raise InjectedError("injected: error before the first byte of %s" % uri)
+        if kind == "ERR_STOPITER":
+            # e.g. a bare next() on an empty chunk iterator inside the user's download function
+            raise StopIteration("injected: empty response iterator for %s" % uri)
         if kind == "RET_FALSE_BEFORE":
             # the documented protocol: "Return True on Success" - this resource reports failure by returning False
             return False
@@ -527,6 +531,11 @@ class World:
         if kind == "VALIDATE_IOERROR":
             self.validator_calls.append((self.director.op, key, "ioerror"))
             raise IOError("injected: validator cannot read")
+        if kind == "VALIDATE_RAISE":
+            # a bug in the user's validator: not an IOError, so the request fails; entries rejected earlier in
+            # the same request must not be left behind as servable hits
+            self.validator_calls.append((self.director.op, key, "raised"))
+            raise ValueError("injected: validator crashed")
         if kind == "VALIDATE_FALSE":
             verdict = False
         elif mode == "current" and key is not None:
